@@ -1163,6 +1163,16 @@ func (l *Ledger) Truncate(utxovmLastID []byte) error {
 		}
 	}
 
+	// 目标区块成为主干末端, 它的next_hash指向的区块已经被裁掉
+	if len(block.NextHash) > 0 {
+		newTip := proto.Clone(block).(*pb.InternalBlock)
+		newTip.NextHash = []byte{}
+		if err = l.saveBlock(newTip, batchWrite); err != nil {
+			return err
+		}
+		l.blockCache.Del(string(newTip.Blockid))
+	}
+
 	newMeta.TrunkHeight = block.Height
 	metaBuf, err := proto.Marshal(newMeta)
 	if err != nil {
@@ -1172,6 +1182,7 @@ func (l *Ledger) Truncate(utxovmLastID []byte) error {
 	batchWrite.Put([]byte(pb.MetaTablePrefix), metaBuf)
 	err = batchWrite.Write()
 	if err != nil {
+		l.blkHeaderCache.Del(string(block.Blockid))
 		l.xlog.Warn("batch write failed when truncate", "err", err)
 		return err
 	}
